@@ -46,6 +46,13 @@ def scenarios(tier, seed=0):
         for iwc in (["WP", "FC", "Pct40", "Pct70"] if method == 1 else ["WP", "FC"]):
             c = A._b(crop=ck, iwc=iwc, word=word, win="w2", soil="SandyLoam")
             yield {"kind": "irr", "config": c, "irr": irr_spec(method, kw, sch, mi, ms, eff)}
+    # schedule tables built other ways than a datetime64 column: the docstring's DataFrame([dates, depths]).T (object-dtype columns of
+    # timestamps), the same from date strings, rows listed latest first
+    for style, sch, mi in itertools.product(("object_ts", "object_str", "reversed"), ("inseason", "big", "outside", "beyond_window"), (25, 5)):
+        c = A._b(crop="maize.2", iwc="WP", word="dry", win="w2", soil="SandyLoam")
+        ir = irr_spec(3, {}, sch, mi, 10000, 100)
+        ir["schedule_style"] = style
+        yield {"kind": "irr", "config": c, "irr": ir}
     # net irrigation (and the threshold strategy) on layered soils with a finer / coarser top layer, roots crossing the boundary
     for soil in ("clayoversand", "sandoverclay", "Tunis", "Paddy"):
         for (method, kw, sch) in [x for x in STRATS if x[0] in (1, 4)]:
